@@ -212,13 +212,10 @@ def importLoad (r : R) : R × Bool :=
   | .ok _ => (r, true)
 
 /-- an @import rule of a sheet that is being parsed: `_loadHref` when the rule's text is set
-(cssimportrule.py:265,280) and, if that did not find the sheet, once more when `insertRule` gives the rule its
-parent sheet (cssstylesheet.py:901-903) -/
-def importTwice (attempt : G → R) (g : G) : R :=
-  let a := importLoad (attempt g)
-  match a.1.res with
-  | .error _ => a.1
-  | .ok _ => if a.2 then a.1 else seqR a.1 fun g => (importLoad (attempt g)).1
+(cssimportrule.py:265,280). When `insertRule` gives the rule its parent sheet (cssstylesheet.py:941-944) the URL that
+was tried and could not be read is not fetched a second time (`_loadHref(…, retry=False)`, `_hrefTried`; since "inserting
+an @import rule whose sheet could not be read does not fetch the same URL a second time") -/
+def importOnce (attempt : G → R) (g : G) : R := (importLoad (attempt g)).1
 
 section
 variable (env : Env) (fuel : Nat)
@@ -228,7 +225,7 @@ def runStep : Step → G → R
   | .log never, g => doLog never g
   | .imp inner res sub, g =>
     -- cssimportrule.py:309-352: everything is inside `try … except (OSError, ValueError, DOMException)`
-    importTwice (fun g =>
+    importOnce (fun g =>
       seqR ⟨.ok (), g, [.seen g.raising]⟩ fun g =>          -- the fetcher is called (util.py:925)
       seqR (runSteps inner g) fun g =>                       -- whatever it does with the library
       match res with
